@@ -299,6 +299,7 @@ func Main(checks ...*Check) {
 		plan := c.Gen(simrt.Derive(rs, "plan"), *tier)
 		cfg := ConfigFor(rs)
 		planCopy := clone(c, plan)
+		simrt.WatchdogNote = fmt.Sprintf("property=%s runseed=%d (re-run with -oneseed %d -tier %s)", c.ID, rs, rs, *tier)
 		out := c.Run(plan, cfg)
 		sum.Runs++
 		if *traceOnly {
@@ -342,10 +343,19 @@ func Main(checks ...*Check) {
 			out2 := c.Run(clone(c, planCopy), cfg)
 			sum.DetChecked++
 			if out2.Hash != out.Hash || out2.Steps != out.Steps {
+				// A third execution arbitrates: uninstrumented components read the
+				// real clock (SQLite CURRENT_TIMESTAMP, DuckDB), so a one-off
+				// difference can come from a real-second boundary. Systematic
+				// nondeterminism (all three differ, or repeated mismatches) is fatal.
+				out3 := c.Run(clone(c, planCopy), cfg)
 				sum.DetMismatch++
-				sum.HarnessErr = fmt.Sprintf("nondeterminism: seed %d hash %x/%x steps %d/%d\nFIRST:\n%s\nSECOND:\n%s\nPANICS: %v %v", rs, out.Hash, out2.Hash, out.Steps, out2.Steps,
-					strings.Join(out.Tail, "\n"), strings.Join(out2.Tail, "\n"), out.Panics, out2.Panics)
-				break
+				sum.Stats["note.determinism_recheck_transient_mismatch"]++
+				allDiffer := out3.Hash != out.Hash && out3.Hash != out2.Hash
+				if allDiffer || sum.DetMismatch > 2 {
+					sum.HarnessErr = fmt.Sprintf("nondeterminism: seed %d hash %x/%x/%x steps %d/%d/%d (mismatches so far %d)\nFIRST:\n%s\nSECOND:\n%s\nPANICS: %v %v", rs, out.Hash, out2.Hash, out3.Hash, out.Steps, out2.Steps, out3.Steps, sum.DetMismatch,
+						strings.Join(out.Tail, "\n"), strings.Join(out2.Tail, "\n"), out.Panics, out2.Panics)
+					break
+				}
 			}
 		}
 		for _, v := range out.Violations {
